@@ -9,7 +9,9 @@
 (* (short, PrintT wraps tuples longer than 80 characters).  The            *)
 (* implementation model runs alongside only to report where prediction     *)
 (* and observation differ (<<"DIVERGE", id, step>>, informational) and to  *)
-(* label a verdict with the known-finding predicate that explains it.      *)
+(* label a verdict with the known-finding predicate that explains it      *)
+(* (KF_C13_1 speaks about the model's _record set, so it is only used while *)
+(* model and observation agree; KF_C13_2/3 speak about observations only). *)
 EXTENDS Context, TLC, Json, IOUtils
 Rows == ndJsonDeserialize(IOEnv.TRACE_FILE)
 
@@ -33,7 +35,8 @@ Step(row) ==
        kfs == KFs(s, m, op, ob)
    IN /\ IF ~wf THEN PrintT(<<"VERDICT", row.id, "malformed_row", k, 0, "malformed", 0>>)
          ELSE /\ \A x \in mv.v : PrintT(<<"VERDICT", row.id, x[1], k, op[1], x[2],
-                                           IF KFOf(x) \in kfs /\ pr.ob = ob THEN KFNum(KFOf(x)) ELSE 0>>)
+                                           IF KFOf(x) \in kfs /\ (pr.ob = ob \/ KFOf(x) # "KF_C13_1")
+                                           THEN KFNum(KFOf(x)) ELSE 0>>)
               /\ (pr.ob # ob => PrintT(<<"DIVERGE", row.id, k>>))
       /\ nv' = nv + (IF wf THEN Cardinality(mv.v) ELSE 1)
       /\ IF k < Len(row.ops)
